@@ -4,6 +4,8 @@ package proc
 
 import (
 	"fmt"
+	"os"
+	"path/filepath"
 	"regexp"
 	"strconv"
 	"strings"
@@ -11,6 +13,7 @@ import (
 	"time"
 
 	"pgregory.net/rapid"
+	"verif.local/oracle"
 	"verif.local/vstat"
 )
 
@@ -230,4 +233,103 @@ func c11ProcColours(t *rapid.T) {
 
 func TestVerifC11_ProcColours(t *testing.T) {
 	rapid.Check(t, c11ProcColours)
+}
+
+// With --ansi the text of a line that fzf hands out - in the state reported over --listen, to a
+// command through {} and on standard output when the line is accepted - is the line without its
+// control sequences, whether or not colours are shown (--no-color, --color=bw, NO_COLOR) and
+// whether or not another text is displayed for the line (--with-nth).
+func c11ProcPrinted(t *rapid.T) {
+	seqs := []string{"\x1b[31m", "\x1b[1;44m", "\x1b[m", "\x1b[0m", "\x1b[K", "\x1b(B", "\x0e", "\x0f", "q\x08", "\x1b]0;title\x07", "\x1b]8;;http://x/~y\x1b\\", "\x1b]8;;\x1b\\", "\x1b[38;5;200m", "\x1b[39;49m", "\x1bM"}
+	words := []string{"alpha", "beta", "a-b", "ab1", "é-a", "zzz", " ", "1", "xay"}
+	nlines := rapid.IntRange(1, 8).Draw(t, "nlines")
+	lines := make([]string, nlines)
+	anySeq := false
+	for i := range lines {
+		var sb strings.Builder
+		sb.WriteString(fmt.Sprintf("L%d ", i))
+		for k := rapid.IntRange(0, 6).Draw(t, "npieces"); k > 0; k-- {
+			if rapid.Bool().Draw(t, "isSeq") {
+				sb.WriteString(rapid.SampledFrom(seqs).Draw(t, "seq"))
+				anySeq = true
+			} else {
+				sb.WriteString(rapid.SampledFrom(words).Draw(t, "word"))
+			}
+		}
+		lines[i] = sb.String()
+	}
+	args := []string{"--ansi", "--multi", "--no-sort", "--no-mouse"}
+	var env []string
+	colour := rapid.SampledFrom([]string{"", "", "--no-color", "--color=bw", "NO_COLOR", "--color=dark"}).Draw(t, "colours")
+	switch colour {
+	case "":
+	case "NO_COLOR":
+		env = append(env, "NO_COLOR=1")
+	default:
+		args = append(args, colour)
+	}
+	withNth := rapid.SampledFrom([]string{"", "", "..", "2..", "1", "-1"}).Draw(t, "withNth")
+	if withNth != "" {
+		args = append(args, "--with-nth", withNth)
+	}
+	dir, err := os.MkdirTemp(workDir, "c11p")
+	if err != nil {
+		infra(t, "%v", err)
+	}
+	defer os.RemoveAll(dir)
+	out := filepath.Join(dir, "current.txt")
+	s := StartSession(t, SessionCfg{Args: args, Env: env, Input: []byte(strings.Join(lines, "\n") + "\n"), Width: 70, Height: 14})
+	defer s.Close()
+	st, ok := s.WaitFor(100, func(st *Status) bool { return !st.Reading && st.TotalCount == nlines && st.MatchCount == nlines && len(st.Matches) == nlines })
+	if !ok {
+		infra(t, "session did not settle: %s", describe(st))
+	}
+	desc := fmt.Sprintf("fzf %s %v, input lines %q", strings.Join(args, " "), env, lines)
+	nt := anySeq && withNth != "" && colour != "" && colour != "--color=dark"
+	vstat.Case("C11/proc-printed", desc, nt, "colours="+colour, "withNth="+withNth)
+	if nt && vstat.WantSample("C11/proc-printed") {
+		vstat.Sample("C11/proc-printed", map[string]interface{}{"args": args, "env": env, "lines": fmt.Sprintf("%q", lines)})
+	}
+	for _, it := range st.Matches {
+		if it.Index < 0 || it.Index >= nlines {
+			t.Fatalf("%s: the state lists item #%d", desc, it.Index)
+		}
+		if want := oracle.StripAnsi(lines[it.Index]); it.Text != want {
+			t.Fatalf("%s: the state reports line %d as %q, the line without its control sequences is %q", desc, it.Index, it.Text, want)
+		}
+	}
+	// {} of the current line
+	pos := rapid.IntRange(1, nlines).Draw(t, "pos")
+	s.Post(fmt.Sprintf("pos(%d)+execute-silent(printf %%s {} > %s.tmp; mv %s.tmp %s)", pos, shQuote(out), shQuote(out), shQuote(out)))
+	var got []byte
+	for i := 0; i < 400; i++ {
+		if got, err = os.ReadFile(out); err == nil {
+			break
+		}
+		time.Sleep(10 * time.Millisecond)
+	}
+	if err != nil {
+		if pt := s.panicText(); pt != "" {
+			t.Fatalf("%s: fzf crashed\n%s", desc, pt)
+		}
+		infra(t, "execute-silent did not write its file")
+	}
+	if want := oracle.StripAnsi(lines[pos-1]); string(got) != want {
+		t.Fatalf("%s: {} on line %d gave %q, the line without its control sequences is %q", desc, pos-1, got, want)
+	}
+	s.Post("select-all+accept")
+	if _, ok := s.WaitExit(20 * time.Second); !ok {
+		t.Fatalf("%s: fzf did not exit after select-all+accept", desc)
+	}
+	var want strings.Builder
+	for _, l := range lines {
+		want.WriteString(oracle.StripAnsi(l) + "\n")
+	}
+	if string(s.Stdout()) != want.String() {
+		t.Fatalf("%s: accepted lines printed as %q, expected %q", desc, s.Stdout(), want.String())
+	}
+}
+
+func TestVerifC11_ProcPrinted(t *testing.T) {
+	rapid.Check(t, c11ProcPrinted)
 }
